@@ -166,4 +166,480 @@ Proof.
     destruct Hoks as [H1 H2]. split; [exact H1|]. split; [exact H2|]. apply Hred. reflexivity.
 Qed.
 
+
+(** * One step, not stalled *)
+Lemma step_normal_c p s l0 l1 l2 l3 l4 dead : InvAt P p s l0 l1 l2 l3 l4 dead -> stalled p = None ->
+  pipe_done p = false ->
+  match pipe_step p with
+  | (p', None) => Inv P p' (adv l3 s) /\ lat_at (lat p') 4 = option_map wb_slot l3 /\
+                  (l3 = None -> mu p' < mu p)
+  | (p', Some f) => exists tm, single_pipeline_step (adv l3 s) = (tm, Some f) /\
+                  single_done (adv l3 s) = false /\
+                  regs (pst p') = regs tm /\ ms (pst p') = ms tm /\ out (pst p') = out tm
+  end.
+Proof.
+  intros [Hl Sh Hz HPp HPs W Hexs Hd D1 L3 L2 L1 L0 HF Hrg Hms Hbc Hpcn Hout Hexc Hic] Hst Hnd.
+  pose proof (shape_step no_icache p no_icache_faithful Sh) as Sh'.
+  assert (Hsv : saved p = None) by (apply (shape_saved_iff no_icache p Sh); exact Hst).
+  rewrite (pipe_step_normal p _ _ _ _ _ Hl Hst) in *. unfold run_normal in *. rewrite Hz in *.
+  destruct (if_stage P (bumped (pst p)) (sh_im _ _ Sh) HPp)
+    as (n0 & s1 & HIF & Hr1 & Hm1 & Ho1 & He1 & Hi1 & Hb1 & Hp1 & HP1 & Hnc1 & Hs0 & Hf0 & Hn0).
+  rewrite HIF in *.
+  destruct (wb_stage P Hsupc s l3 s1 HPs L3 W Hexs ltac:(rewrite Hr1; exact Hrg))
+    as (s2 & HWB & Hf4 & Hr2 & Hm2 & Ho2 & Hb2 & Hp2 & He2 & Hpc2 & Him2 & Hi2 & W2 & HP2 & Hex2).
+  rewrite HWB in *.
+  destruct (shape_at p _ _ _ _ _ Sh Hl) as (K0 & K1 & K2 & K3 & K4 & KM). rewrite HPp in *.
+  destruct (ex_latch_c l1 l2 l3 s2 D1 K1) as (n2 & HEX & Hne2 & Hs2 & Hf2 & Hfd2 & Hrel2).
+  rewrite HEX in *.
+  destruct (mem_on l2 s2) as [[n3 s4] oe] eqn:HM.
+  pose proof (mem_stage P Hsupc _ _ _ _ _ _ _ HP2 L2 (fired_c l2 K2)
+                ltac:(rewrite Hm2, Hm1; exact Hms) HM) as (Hr4 & Ho4 & He4 & Hi4 & Hpc4 & Him4 & HMEM).
+  destruct oe as [e|].
+  - destruct HMEM as (x2 & tm & -> & Hstep & Hm4 & Hrtm).
+    cbn [finish fst snd faulted pst fault_at fault_of lat_at nthZ nth Z.to_nat].
+    exists tm. split; [exact Hstep|].
+    cbn [lv] in L2. destruct (L2 Logic.I) as (_ & (Hx & _ & Hi) & _).
+    split; [apply (not_done _ (sl_instr x2)); [exact Hx|rewrite HP2; exact Hi]|].
+    split; [rewrite Hr4, Hr2, Hrtm; reflexivity|]. split; [exact Hm4|].
+    rewrite Ho4, Ho2, Ho1. change (out (bumped (pst p))) with (out (pst p)). rewrite Hout.
+    rewrite (fired_c _ K2). cbn [nonempty adv]. unfold nxt. rewrite Hstep. reflexivity.
+  - destruct HMEM as (Hne3 & Hm4 & Hs3 & Hb4 & Hp4 & Hrel3).
+    set (n1 := id_on true l0 l1 l2 s2) in *.
+    set (n4 := option_map wb_slot l3) in *.
+    assert (Hs4 : has_stall n4 = false) by (subst n4; destruct l3; reflexivity).
+    destruct (mem_ok_cases dead _ _ _ K2 HP2 L2 Hrel3)
+      as (L3' & O2 & [[Hf3 Hd3] | (a & Hf3 & Hn3 & Hpca & Wn & HPn & Hexn)]).
+    2:{ (* flush from MEM: the barrier redirects *)
+      cbn [finish]. cbn [finish fst] in Sh'.
+      match goal with |- context [post p ?nx s4] =>
+      assert (Hpost : exists s5, post p nx s4 =
+                {| pst := with_pc (with_flushes s5 (flushes s5 + 1)) a; lat := clear_prefix nx 3%nat;
+                   stalled := None; saved := None; hazards := true |} /\
+                (s5 = s4 \/ s5 = with_stalls s4 (stalls s4 + 1))) end.
+      { assert (Hff : first_flush [n0; n1; n2; n3; n4] = Some (3, a)).
+        { rewrite first_flush_5 by (assumption || apply id_on_flags). rewrite Hf4, Hf3. reflexivity. }
+        unfold post. rewrite Hst, Hsv, Hz.
+        destruct (has_stall n1) eqn:Hs1.
+        - assert (Hns : new_stall [n0; n1; n2; n3; n4] None = Some 1).
+          { rewrite new_stall_5 by assumption. rewrite Hs2, Hs1. reflexivity. }
+          rewrite (stall_part_new _ _ _ _ Hns), (flush_part_some _ _ _ _ _ _ _ Hff).
+          eexists. split; [reflexivity|right; reflexivity].
+        - assert (Hns : new_stall [n0; n1; n2; n3; n4] None = None).
+          { rewrite new_stall_5 by assumption. rewrite Hs2, Hs1. reflexivity. }
+          rewrite (stall_part_idle _ _ _ Hns), (flush_part_some _ _ _ _ _ _ _ Hff).
+          eexists. split; [reflexivity|left; reflexivity]. }
+      destruct Hpost as (s5 & Hpost & Hs5). rewrite Hpost in *. cbn [clear_prefix] in *.
+      assert (F5 : regs s5 = regs s4 /\ ms s5 = ms s4 /\ out s5 = out s4 /\ exitc s5 = exitc s4 /\
+                   icount s5 = icount s4 /\ bcount s5 = bcount s4 /\ pcount s5 = pcount s4 /\
+                   im s5 = im s4) by (destruct Hs5 as [-> | ->]; repeat split).
+      destruct F5 as (Fr & Fm & Fo & Fe & Fi & Fb & Fp & Fim).
+      assert (Hadv3 : forall t, adv n3 t = nxt t) by (intros; unfold adv; rewrite Hn3; reflexivity).
+      assert (Hl2ne : nonempty l2 = true) by congruence.
+      assert (Hadv2 : forall t, adv l2 t = nxt t) by (intros; unfold adv; rewrite Hl2ne; reflexivity).
+      rewrite Hadv2 in Hm4, Hb4, Hp4.
+      split; [|split].
+      + exists None, None, None, n3, n4, 0%nat. constructor; cbn [pst lat stalled saved hazards]; stf.
+        * reflexivity.
+        * exact Sh'.
+        * reflexivity.
+        * rewrite Fim, Him4, Him2. exact HP1.
+        * exact HP2.
+        * exact W2.
+        * exact Hex2.
+        * lia.
+        * exact Logic.I.
+        * exact L3'.
+        * cbn [lv]. lia.
+        * cbn [lv]. lia.
+        * cbn [lv]. lia.
+        * intros _. cbn [adv nonempty]. rewrite Hadv3. csplit; try assumption. symmetry; exact Hpca.
+        * congruence.
+        * rewrite Hadv3. congruence.
+        * rewrite Hadv3.
+          change (bcount (bumped (pst p))) with (bcount (pst p)) in Hb1. lia.
+        * rewrite Hadv3.
+          change (pcount (bumped (pst p))) with (pcount (pst p)) in Hp1. lia.
+        * cbn [fired]. rewrite Hadv3.
+          assert (Ho_l2 : out (adv l2 (adv l3 s)) = out (adv l3 s)).
+          { apply adv_out_c; try assumption. destruct l2; [apply (L2 Logic.I)|exact Logic.I]. }
+          rewrite Hadv2 in Ho_l2.
+          rewrite Fo, Ho4, Ho2, Ho1. change (out (bumped (pst p))) with (out (pst p)). rewrite Hout.
+          destruct (fired l2); [rewrite Hadv2; reflexivity|symmetry; exact Ho_l2].
+        * change (exitc (bumped (pst p))) with (exitc (pst p)) in He1. congruence.
+        * change (icount (bumped (pst p))) with (icount (pst p)) in Hi1. lia.
+        * reflexivity.
+      + reflexivity.
+      + intros ->. unfold mu, dcount. cbn [lat stalled]. rewrite Hl, Hst. lat5.
+        rewrite Hn3, Hl2ne. cbn [nonempty]. lia. }
+    cbn [finish]. cbn [finish fst] in Sh'.
+    match goal with |- context [post p ?nx s4] =>
+    assert (Hpost : exists stl sv s5, post p nx s4 =
+              {| pst := s5; lat := nx; stalled := stl; saved := sv; hazards := true |} /\
+              (s5 = s4 \/ s5 = with_stalls s4 (stalls s4 + 1)) /\
+              ((stl = None /\ has_stall n1 = false) \/ (stl = Some (1, 2) /\ has_stall n1 = true))) end.
+    { assert (Hff : first_flush [n0; n1; n2; n3; n4] = None).
+      { rewrite first_flush_5 by (assumption || apply id_on_flags). rewrite Hf4, Hf3, Hf2. reflexivity. }
+      unfold post. rewrite Hst, Hsv, Hz.
+      destruct (has_stall n1) eqn:Hs1.
+      - assert (Hns : new_stall [n0; n1; n2; n3; n4] None = Some 1).
+        { rewrite new_stall_5 by assumption. rewrite Hs2, Hs1. reflexivity. }
+        rewrite (stall_part_new _ _ _ _ Hns), (flush_part_none _ _ _ _ _ Hff).
+        do 3 eexists. split; [reflexivity|]. split; [right; reflexivity|right; split; reflexivity].
+      - assert (Hns : new_stall [n0; n1; n2; n3; n4] None = None).
+        { rewrite new_stall_5 by assumption. rewrite Hs2, Hs1. reflexivity. }
+        rewrite (stall_part_idle _ _ _ Hns), (flush_part_none _ _ _ _ _ Hff).
+        do 3 eexists. split; [reflexivity|]. split; [left; reflexivity|left; split; reflexivity]. }
+    destruct Hpost as (stl & sv & s5 & Hpost & Hs5 & Hstl').
+    rewrite Hpost in *.
+    assert (F5 : regs s5 = regs s4 /\ ms s5 = ms s4 /\ out s5 = out s4 /\ exitc s5 = exitc s4 /\
+                 icount s5 = icount s4 /\ bcount s5 = bcount s4 /\ pcount s5 = pcount s4 /\
+                 pc s5 = pc s4 /\ im s5 = im s4) by (destruct Hs5 as [-> | ->]; repeat split).
+    destruct F5 as (Fr & Fm & Fo & Fe & Fi & Fb & Fp & Fpc & Fim).
+    destruct (new_fetch P dead (adv l0 (adv l1 (adv l2 (adv l3 s)))) n0 (pc (pst p)) (pc s1))
+      as (dead' & Hdd & L0' & HF').
+    { intros H0. destruct (HF H0) as (a & b & c & d). csplit; assumption. }
+    { destruct n0; [destruct Hn0 as (a & b & c & _);
+        change (pc (bumped (pst p))) with (pc (pst p)) in *; csplit; assumption|apply Hn0]. }
+    assert (Hne1 : nonempty n1 = nonempty l0) by apply nonempty_id_on.
+    assert (HPt1 : prog (im (adv l2 (adv l3 s))) = P /\ wf (adv l2 (adv l3 s))).
+    { apply adv_prog; auto. destruct l2; [apply (L2 Logic.I)|exact Logic.I]. }
+    destruct HPt1 as [HPt1 Wt1].
+    assert (O1 : (dead <= 1)%nat -> okl P (adv l2 (adv l3 s)) l1).
+    { intros Hd1. destruct l1 as [x1|]; [|exact Logic.I]. cbn [lv] in L1.
+      destruct (L1 ltac:(lia)) as (Wt & Hon & _ & _ & Hpl).
+      split; [exact Wt|]. split; [exact Hon|]. apply Hpl. lia. }
+    split; [|split].
+    + exists n0, n1, n2, n3, n4, dead'. constructor; cbn [pst lat stalled saved hazards].
+      * reflexivity.
+      * exact Sh'.
+      * reflexivity.
+      * rewrite Fim, Him4, Him2. exact HP1.
+      * exact HP2.
+      * exact W2.
+      * exact Hex2.
+      * lia.
+      * subst n1. destruct l0; [rewrite id_on_some; apply id_slot_Dsh|exact Logic.I].
+      * exact L3'.
+      * rewrite (adv_ne n3 l2) by exact Hne3.
+        apply (lv_map P _ _ _ _ _ _ _ _ _ L1); try lia.
+        destruct l1 as [x1|], n2 as [x2|]; try contradiction; [|exact Logic.I].
+        destruct Hrel2 as (a & b & c). split; [exact a|]. split; [exact b|]. intros _ _ _ Hc. apply c, Hc, Hst.
+      * rewrite (adv_ne n3 l2), (adv_ne n2 l1) by assumption.
+        apply (lv_map P _ _ _ _ _ _ _ _ _ L0); try lia.
+        subst n1. destruct l0 as [y|]; [rewrite id_on_some|exact Logic.I].
+        split; [reflexivity|]. split; [reflexivity|]. intros Hlv _ (_ & Hay & _) _ Hstl.
+        destruct Hstl' as [[_ Hs1]|[Hstl' _]]; [|rewrite Hstl' in Hstl; discriminate Hstl].
+        rewrite id_on_some in Hs1. cbn [has_stall id_slot sl_stall] in Hs1.
+        apply (id_operands P Hsupc); try assumption; [apply O1; lia].
+      * rewrite (adv_ne n3 l2), (adv_ne n2 l1), (adv_ne n1 l0) by assumption. exact L0'.
+      * rewrite (adv_ne n3 l2), (adv_ne n2 l1), (adv_ne n1 l0) by assumption.
+        intros H0. destruct (HF' H0) as (a & b & c & d). csplit; try assumption. congruence.
+      * congruence.
+      * rewrite (adv_ne n3 l2) by assumption. congruence.
+      * rewrite (adv_ne n3 l2) by assumption. change (bcount (bumped (pst p))) with (bcount (pst p)) in Hb1. lia.
+      * rewrite (adv_ne n3 l2) by assumption. change (pcount (bumped (pst p))) with (pcount (pst p)) in Hp1. lia.
+      * rewrite (adv_ne n3 l2), (adv_ne n2 l1) by assumption.
+        assert (Ho_l2 : out (adv l2 (adv l3 s)) = out (adv l3 s)).
+        { apply adv_out_c; try assumption. destruct l2; [apply (L2 Logic.I)|exact Logic.I]. }
+        assert (Hlhs : out s5 = out (adv l3 s)).
+        { rewrite Fo, Ho4, Ho2, Ho1. change (out (bumped (pst p))) with (out (pst p)). rewrite Hout.
+          destruct (fired l2); [exact Ho_l2|reflexivity]. }
+        rewrite Hlhs, Hfd2, Hne2. destruct l1 as [x1|]; cbn [nonempty]; [|symmetry; exact Ho_l2].
+        transitivity (out (adv l2 (adv l3 s))); [symmetry; exact Ho_l2|].
+        symmetry. apply adv_out_c; [exact Wt1|exact HPt1|].
+        cbn [lv] in L1. apply L1. lia.
+      * change (exitc (bumped (pst p))) with (exitc (pst p)) in He1. congruence.
+      * change (icount (bumped (pst p))) with (icount (pst p)) in Hi1. lia.
+      * rewrite Hfd2. destruct Hstl' as [[-> _]|[-> _]]; reflexivity.
+    + reflexivity.
+    + intros ->. unfold mu, dcount. cbn [lat stalled]. rewrite Hl, Hst. lat5.
+      rewrite Hne3, Hne2, Hne1. cbn [nonempty].
+      destruct l2 as [x2|]; cbn [nonempty]; [lia|].
+      destruct l1 as [x1|]; cbn [nonempty]; [lia|].
+      assert (Hstl0 : stl = None).
+      { destruct Hstl' as [[H _]|[_ H]]; [exact H|].
+        apply has_stall_id_needs in H. cbn [nonempty] in H. destruct H as [_ [H|H]]; discriminate H. }
+      rewrite Hstl0.
+      destruct l0 as [x0|]; cbn [nonempty]; [lia|].
+      destruct n0 as [x|]; cbn [nonempty]; [lia|]. exfalso.
+      destruct Hn0 as [_ Hn0]. unfold pipe_done, pipe_empty in Hnd. rewrite Hexc, Hl in Hnd. lat5h Hnd.
+      cbn [nonempty orb negb andb] in Hnd. unfold has_instr in Hnd. rewrite HPp in Hnd.
+      change (pc (bumped (pst p))) with (pc (pst p)) in Hn0. rewrite Hn0 in Hnd. discriminate Hnd.
+Qed.
+
+
+
+
+(** * One step, stalled at ID *)
+Lemma step_stall1_c p s l0 l1 l2 l3 l4 dead d : InvAt P p s l0 l1 l2 l3 l4 dead ->
+  stalled p = Some (1, d) ->
+  match pipe_step p with
+  | (p', None) => Inv P p' (adv l3 s) /\ lat_at (lat p') 4 = option_map wb_slot l3 /\
+                  (l3 = None -> mu p' < mu p)
+  | (p', Some f) => exists tm, single_pipeline_step (adv l3 s) = (tm, Some f) /\
+                  single_done (adv l3 s) = false /\
+                  regs (pst p') = regs tm /\ ms (pst p') = ms tm /\ out (pst p') = out tm
+  end.
+Proof.
+  intros [Hl Sh Hz HPp HPs W Hexs Hd D1 L3 L2 L1 L0 HF Hrg Hms Hbc Hpcn Hout Hexc Hic] Hst.
+  pose proof (shape_step no_icache p no_icache_faithful Sh) as Sh'.
+  destruct (shape_at p _ _ _ _ _ Sh Hl) as (K0 & K1 & K2 & K3 & K4 & KM). rewrite HPp in *.
+  rewrite Hst in KM. unfold ModeInv in KM. destruct (saved p) as [svl|] eqn:Hsv; [|contradiction].
+  destruct KM as [Hd12 [(_ & m & x1 & -> & -> & Hm & Him & Ham & _ & Hd1)|(Habs & _)]]; [|discriminate Habs].
+  rewrite (pipe_step_stall1 p _ _ _ _ _ d Hl Hst) in *. unfold run_stall1, sv_at in *. rewrite Hz, Hsv in *.
+  change (lat_at [Some m] 0) with (Some m) in *.
+  destruct (wb_stage P Hsupc s l3 (bumped (pst p)) HPs L3 W Hexs Hrg)
+    as (s2 & HWB & Hf4 & Hr2 & Hm2 & Ho2 & Hb2 & Hp2 & He2 & Hpc2 & Him2 & Hi2 & W2 & HP2 & Hex2).
+  rewrite HWB in *.
+  destruct (mem_on l2 s2) as [[n3 s4] oe] eqn:HM.
+  pose proof (mem_stage P Hsupc _ _ _ _ _ _ _ HP2 L2 (fired_c l2 K2)
+                ltac:(rewrite Hm2; exact Hms) HM) as (Hr4 & Ho4 & He4 & Hi4 & Hpc4 & Him4 & HMEM).
+  destruct oe as [e|].
+  - destruct HMEM as (x2 & tm & -> & Hstep & Hm4 & Hrtm).
+    cbn [finish fst snd faulted pst fault_at fault_of lat_at nthZ nth Z.to_nat].
+    exists tm. split; [exact Hstep|].
+    cbn [lv] in L2. destruct (L2 Logic.I) as (_ & (Hx & _ & Hi) & _).
+    split; [apply (not_done _ (sl_instr x2)); [exact Hx|rewrite HP2; exact Hi]|].
+    split; [rewrite Hr4, Hr2, Hrtm; reflexivity|]. split; [exact Hm4|].
+    rewrite Ho4, Ho2. change (out (bumped (pst p))) with (out (pst p)). rewrite Hout.
+    rewrite (fired_c _ K2). cbn [nonempty adv]. unfold nxt. rewrite Hstep. reflexivity.
+  - destruct HMEM as (Hne3 & Hm4 & Hs3 & Hb4 & Hp4 & Hrel3).
+    set (n1 := id_on true (Some m) (Some x1) l2 s2) in *.
+    set (n4 := option_map wb_slot l3) in *.
+    assert (Hs4 : has_stall n4 = false) by (subst n4; destruct l3; reflexivity).
+    destruct (mem_ok_cases dead _ _ _ K2 HP2 L2 Hrel3)
+      as (L3' & O2 & [[Hf3 Hd3] | (a & Hf3 & Hn3 & Hpca & Wn & HPn & Hexn)]).
+    2:{ (* flush from MEM: the barrier redirects and cancels the stall *)
+      cbn [finish]. cbn [finish fst] in Sh'.
+      match goal with |- context [post p ?nx s4] =>
+      assert (Hpost : post p nx s4 =
+                {| pst := with_pc (with_flushes s4 (flushes s4 + 1)) a; lat := clear_prefix nx 3%nat;
+                   stalled := None; saved := None; hazards := true |}) end.
+      { assert (Hff : first_flush [l0; n1; None; n3; n4] = Some (3, a)).
+        { rewrite first_flush_5; [|apply (L0ok_flags _ _ K0)|apply id_on_flags].
+          rewrite Hf4, Hf3. reflexivity. }
+        assert (Hns : new_stall [l0; n1; None; n3; n4] (Some (1, d)) = None).
+        { rewrite new_stall_5; [|apply (L0ok_flags _ _ K0)|assumption|assumption].
+          cbn [has_stall andb above]. replace (1 <? 1) with false by lia. rewrite Bool.andb_false_r. reflexivity. }
+        unfold post. rewrite Hst, Hsv, Hz.
+        destruct Hd12 as [-> | ->].
+        - rewrite (stall_part_first _ _ _ _ _ Hns), (flush_part_some _ _ _ _ _ _ _ Hff). reflexivity.
+        - rewrite (stall_part_last _ _ _ _ _ Hns), (flush_part_some _ _ _ _ _ _ _ Hff). reflexivity. }
+      rewrite Hpost in *. cbn [clear_prefix] in *.
+      assert (Hadv3 : forall t, adv n3 t = nxt t) by (intros; unfold adv; rewrite Hn3; reflexivity).
+      assert (Hl2ne : nonempty l2 = true) by congruence.
+      assert (Hadv2 : forall t, adv l2 t = nxt t) by (intros; unfold adv; rewrite Hl2ne; reflexivity).
+      rewrite Hadv2 in Hm4, Hb4, Hp4.
+      split; [|split].
+      + exists None, None, None, n3, n4, 0%nat. constructor; cbn [pst lat stalled saved hazards]; stf.
+        * reflexivity.
+        * exact Sh'.
+        * reflexivity.
+        * rewrite Him4, Him2. exact HPp.
+        * exact HP2.
+        * exact W2.
+        * exact Hex2.
+        * lia.
+        * exact Logic.I.
+        * exact L3'.
+        * cbn [lv]. lia.
+        * cbn [lv]. lia.
+        * cbn [lv]. lia.
+        * intros _. cbn [adv nonempty]. rewrite Hadv3. csplit; try assumption. symmetry; exact Hpca.
+        * congruence.
+        * rewrite Hadv3. congruence.
+        * rewrite Hadv3. change (bcount (bumped (pst p))) with (bcount (pst p)) in Hb2. lia.
+        * rewrite Hadv3. change (pcount (bumped (pst p))) with (pcount (pst p)) in Hp2. lia.
+        * cbn [fired]. rewrite Hadv3.
+          assert (Ho_l2 : out (adv l2 (adv l3 s)) = out (adv l3 s)).
+          { apply adv_out_c; try assumption. destruct l2; [apply (L2 Logic.I)|exact Logic.I]. }
+          rewrite Hadv2 in Ho_l2.
+          rewrite Ho4, Ho2. change (out (bumped (pst p))) with (out (pst p)). rewrite Hout.
+          destruct (fired l2); [rewrite Hadv2; reflexivity|symmetry; exact Ho_l2].
+        * change (exitc (bumped (pst p))) with (exitc (pst p)) in He2. congruence.
+        * change (icount (bumped (pst p))) with (icount (pst p)) in Hi2. lia.
+        * reflexivity.
+      + reflexivity.
+      + intros ->. unfold mu, dcount. cbn [lat stalled]. rewrite Hl, Hst. lat5.
+        rewrite Hn3, Hl2ne. cbn [nonempty]. lia. }
+    cbn [finish]. cbn [finish fst] in Sh'.
+    match goal with |- context [post p ?nx s4] =>
+    assert (Hpost : exists stl sv, post p nx s4 =
+              {| pst := s4; lat := nx; stalled := stl; saved := sv; hazards := true |} /\
+              ((d = 2 /\ stl = Some (1, 1)) \/ (d = 1 /\ stl = None))) end.
+    { assert (Hff : first_flush [l0; n1; None; n3; n4] = None).
+      { rewrite first_flush_5; [|apply (L0ok_flags _ _ K0)|apply id_on_flags].
+        rewrite Hf4, Hf3. reflexivity. }
+      assert (Hns : new_stall [l0; n1; None; n3; n4] (Some (1, d)) = None).
+      { rewrite new_stall_5; [|apply (L0ok_flags _ _ K0)|assumption|assumption].
+        cbn [has_stall andb above]. replace (1 <? 1) with false by lia. rewrite Bool.andb_false_r. reflexivity. }
+      unfold post. rewrite Hst, Hsv, Hz.
+      destruct Hd12 as [-> | ->].
+      - rewrite (stall_part_first _ _ _ _ _ Hns), (flush_part_none _ _ _ _ _ Hff).
+        do 2 eexists. split; [reflexivity|left; split; reflexivity].
+      - rewrite (stall_part_last _ _ _ _ _ Hns), (flush_part_none _ _ _ _ _ Hff).
+        do 2 eexists. split; [reflexivity|right; split; reflexivity]. }
+    destruct Hpost as (stl & sv & Hpost & Hstl').
+    rewrite Hpost in *.
+    assert (Hne1 : nonempty n1 = true) by (subst n1; rewrite id_on_some; reflexivity).
+    split; [|split].
+    + exists l0, n1, None, n3, n4, dead. constructor; cbn [pst lat stalled saved hazards].
+      * reflexivity.
+      * exact Sh'.
+      * reflexivity.
+      * rewrite Him4, Him2. exact HPp.
+      * exact HP2.
+      * exact W2.
+      * exact Hex2.
+      * lia.
+      * subst n1. rewrite id_on_some. apply id_slot_Dsh.
+      * exact L3'.
+      * cbn [lv]. exact Hd3.
+      * rewrite (adv_ne n3 l2) by exact Hne3. cbn [adv nonempty].
+        change (adv l2 (adv l3 s)) with (adv None (adv l2 (adv l3 s))) in L1 at 1.
+        apply (lv_map P _ _ _ _ _ _ _ _ _ L1); try tauto.
+        subst n1. rewrite id_on_some.
+        split; [cbn [id_slot sl_instr]; congruence|]. split; [cbn [id_slot sl_addr]; congruence|].
+        intros _ _ (_ & Hax & _) _ Hstl. destruct Hstl' as [[_ H]|[Hd1' _]]; [rewrite H in Hstl; discriminate|].
+        rewrite (Hd1 Hd1') in *. cbn [adv nonempty] in *.
+        apply id_operands_exact; [exact Hr2|congruence].
+      * rewrite (adv_ne n3 l2) by exact Hne3. rewrite (adv_ne n1 (Some x1)) by (rewrite Hne1; reflexivity).
+        exact L0.
+      * rewrite (adv_ne n3 l2) by exact Hne3. rewrite (adv_ne n1 (Some x1)) by (rewrite Hne1; reflexivity).
+        cbn [adv nonempty] in *.
+        intros H0. destruct (HF H0) as (a & b & c & e). csplit; try assumption.
+        change (pc (bumped (pst p))) with (pc (pst p)) in Hpc2. congruence.
+      * congruence.
+      * rewrite (adv_ne n3 l2) by assumption. congruence.
+      * rewrite (adv_ne n3 l2) by assumption. change (bcount (bumped (pst p))) with (bcount (pst p)) in Hb2. lia.
+      * rewrite (adv_ne n3 l2) by assumption. change (pcount (bumped (pst p))) with (pcount (pst p)) in Hp2. lia.
+      * rewrite (adv_ne n3 l2) by assumption. cbn [fired].
+        assert (Ho_l2 : out (adv l2 (adv l3 s)) = out (adv l3 s)).
+        { apply adv_out_c; try assumption. destruct l2; [apply (L2 Logic.I)|exact Logic.I]. }
+        rewrite Ho4, Ho2. change (out (bumped (pst p))) with (out (pst p)). rewrite Hout, Ho_l2.
+        destruct (fired l2); [exact Ho_l2|reflexivity].
+      * change (exitc (bumped (pst p))) with (exitc (pst p)) in He2. congruence.
+      * change (icount (bumped (pst p))) with (icount (pst p)) in Hi2. lia.
+      * cbn [fired nonempty]. destruct Hstl' as [[_ ->]|[_ ->]]; reflexivity.
+    + reflexivity.
+    + intros ->. unfold mu, dcount. cbn [lat stalled]. rewrite Hl, Hst. lat5.
+      rewrite Hne3, Hne1. cbn [nonempty].
+      destruct l2 as [x2|]; cbn [nonempty]; [lia|].
+      destruct Hstl' as [[-> ->]|[-> ->]]; lia.
+Qed.
+
+
+(** * One step in any mode *)
+Lemma inv_step_c p s l0 l1 l2 l3 l4 dead : InvAt P p s l0 l1 l2 l3 l4 dead -> pipe_done p = false ->
+  match pipe_step p with
+  | (p', None) => Inv P p' (adv l3 s) /\ lat_at (lat p') 4 = option_map wb_slot l3 /\
+                  (l3 = None -> mu p' < mu p)
+  | (p', Some f) => exists tm, single_pipeline_step (adv l3 s) = (tm, Some f) /\
+                  single_done (adv l3 s) = false /\
+                  regs (pst p') = regs tm /\ ms (pst p') = ms tm /\ out (pst p') = out tm
+  end.
+Proof.
+  intros I Hnd. pose proof (iv_shape _ _ _ _ _ _ _ _ _ I) as Sh.
+  destruct (shape_mode_cases no_icache p Sh) as [Hst|(k & d & Hst & [-> | ->])].
+  - eapply step_normal_c; eassumption.
+  - eapply step_stall1_c; eassumption.
+  - exfalso. pose proof (iv_lat _ _ _ _ _ _ _ _ _ I) as Hl. pose proof (iv_progp _ _ _ _ _ _ _ _ _ I) as HPp.
+    destruct (shape_at p _ _ _ _ _ Sh Hl) as (_ & _ & K2 & _ & _ & KM). rewrite HPp in *.
+    rewrite Hst in KM. unfold ModeInv in KM. destruct (saved p); [|contradiction].
+    destruct KM as [_ [(Habs & _)|(_ & m0 & y1 & x2 & _ & _ & -> & Hsk & _)]]; [discriminate Habs|].
+    destruct Hsk as (_ & _ & _ & _ & Hi2 & _). destruct K2 as (R2 & _).
+    pose proof (ne_at _ _ R2) as Hs. rewrite Hi2 in Hs. discriminate Hs.
+Qed.
+
+
+(** * The simulation *)
+Lemma sim_done_c n s p : Inv P p s -> single_done s = true -> sim_goal n s p.
+Proof.
+  intros (l0 & l1 & l2 & l3 & l4 & dead & I) Hd. unfold sim_goal.
+  destruct (single_run_done n s Hd) as [-> ->].
+  destruct (done_empty P _ _ _ _ _ _ _ _ I Hd) as [-> ->].
+  exists 0%nat, p. pose proof (mu_bounds p (iv_shape _ _ _ _ _ _ _ _ _ I)).
+  split; [lia|]. split; [cbn [pipe_run]; rewrite (done_iff P _ _ _ _ _ _ _ _ I), Hd; reflexivity|].
+  split; [eapply inv_empty_agree; eauto|reflexivity].
+Qed.
+
+Lemma sim_c n : forall s p, Inv P p s -> sim_goal n s p.
+Proof.
+  induction n as [|k IHk]; intros s p Hinv.
+  { destruct (single_done s) eqn:Hd; [apply sim_done_c; assumption|].
+    unfold sim_goal. cbn [single_run]. rewrite Hd. exact Logic.I. }
+  remember (Z.to_nat (mu p)) as m eqn:Hm. revert p Hinv Hm.
+  induction m as [m IHm] using lt_wf_ind. intros p Hinv Hm.
+  destruct (single_done s) eqn:Hd; [apply sim_done_c; assumption|].
+  destruct Hinv as (l0 & l1 & l2 & l3 & l4 & dead & I).
+  pose proof (iv_shape _ _ _ _ _ _ _ _ _ I) as Sh. pose proof (mu_bounds p Sh) as Hmu.
+  assert (Hpd : pipe_done p = false) by (rewrite (done_iff P _ _ _ _ _ _ _ _ I); exact Hd).
+  pose proof (inv_step_c _ _ _ _ _ _ _ _ I Hpd) as Hstep.
+  (* what the retirement of latch 3 means for the single-cycle machine *)
+  assert (H3 : forall x3, l3 = Some x3 ->
+             single_pipeline_step s = (nxt s, None) /\ sl_addr x3 = pc s).
+  { intros x3 ->. destruct (iv_l3 _ _ _ _ _ _ _ _ _ I) as (_ & (_ & Ha & _) & _ & Hok & _).
+    split; [|exact Ha].
+    unfold nxt. destruct (single_pipeline_step s) as [s' o]. cbn [snd fst] in *. rewrite Hok. reflexivity. }
+  destruct (pipe_step p) as [p' [f|]] eqn:Hps.
+  - destruct Hstep as (tm & Hss & Hnd & Hr & Hms & Ho).
+    destruct l3 as [x3|]; cbn [adv nonempty] in *.
+    + destruct (H3 x3 eq_refl) as [Hs3 _]. unfold sim_goal.
+      destruct (single_run_step k s _ Hd Hs3) as [-> _].
+      destruct k as [|k']; [cbn [single_run]; rewrite Hnd; exact Logic.I|].
+      rewrite (single_run_fault k' _ _ _ Hnd Hss).
+      exists 1%nat, p'. split; [lia|]. split; [apply pipe_run_fault; assumption|]. repeat split; assumption.
+    + unfold sim_goal. rewrite (single_run_fault k _ _ _ Hd Hss).
+      exists 1%nat, p'. split; [lia|]. split; [apply pipe_run_fault; assumption|]. repeat split; assumption.
+  - destruct Hstep as (Hinv' & Hl4 & Hmu').
+    destruct l3 as [x3|]; cbn [adv nonempty option_map] in *.
+    + destruct (H3 x3 eq_refl) as [Hs3 Ha3]. specialize (IHk (nxt s) p' Hinv').
+      unfold sim_goal in *. destruct (single_run_step k s _ Hd Hs3) as [-> ->].
+      assert (Hmu4 : 0 <= mu p' <= 4).
+      { destruct Hinv' as (? & ? & ? & ? & ? & ? & I'). apply mu_bounds. apply (iv_shape _ _ _ _ _ _ _ _ _ I'). }
+      destruct (single_run k (nxt s)) as [s' [|f|]]; [| |exact Logic.I].
+      * destruct IHk as (c & p'' & Hc & Hrun & Hag & Htr). exists (S c), p''.
+        destruct (pipe_run_step c p p' Hpd Hps) as [-> ->]. rewrite Hl4. cbn [some_addr wb_slot sl_addr app].
+        split; [lia|]. split; [exact Hrun|]. split; [exact Hag|]. rewrite Htr, Ha3. reflexivity.
+      * destruct IHk as (c & p'' & Hc & Hrun & Hag). exists (S c), p''.
+        destruct (pipe_run_step c p p' Hpd Hps) as [-> _]. split; [lia|]. split; assumption.
+    + specialize (Hmu' eq_refl).
+      assert (Hlt : (Z.to_nat (mu p') < m)%nat).
+      { destruct Hinv' as (? & ? & ? & ? & ? & ? & I'). pose proof (mu_bounds p' (iv_shape _ _ _ _ _ _ _ _ _ I')). lia. }
+      specialize (IHm _ Hlt p' Hinv' eq_refl). unfold sim_goal in *.
+      destruct (single_run (S k) s) as [s' [|f|]]; [| |exact Logic.I].
+      * destruct IHm as (c & p'' & Hc & Hrun & Hag & Htr). exists (S c), p''.
+        destruct (pipe_run_step c p p' Hpd Hps) as [-> ->]. rewrite Hl4. cbn [some_addr app].
+        split; [lia|]. split; [exact Hrun|]. split; assumption.
+      * destruct IHm as (c & p'' & Hc & Hrun & Hag). exists (S c), p''.
+        destruct (pipe_run_step c p p' Hpd Hps) as [-> _]. split; [lia|]. split; assumption.
+Qed.
+
 End Control.
+
+(** * Refinement for programs without ecall *)
+Theorem pipe_refines_single_noecall P s n :
+  Forall (fun i => noecall i = true) P -> wf s -> prog (im s) = P ->
+  match single_run n s with
+  | (s', Done) => exists c p, (c <= 8 * n + 8)%nat /\
+      pipe_run c (pipe_init s true) = (p, PDone) /\ arch_agree p s' /\
+      pipe_trace c (pipe_init s true) = single_trace n s
+  | (s', Faulted f) => exists c p, (c <= 8 * n + 8)%nat /\
+      pipe_run c (pipe_init s true) = (p, PFaulted f) /\
+      regs (pst p) = regs s' /\ ms (pst p) = ms s' /\ out (pst p) = out s'
+  | (_, OutOfFuel) => True
+  end.
+Proof.
+  intros HS W HP. destruct (exitc s) as [c0|] eqn:Hex.
+  - assert (Hd : single_done s = true) by (unfold single_done; rewrite Hex; reflexivity).
+    destruct (single_run_done n s Hd) as [-> ->].
+    exists 0%nat, (pipe_init s true). split; [lia|].
+    split; [cbn [pipe_run]; unfold pipe_done; cbn [pipe_init pst]; rewrite Hex; reflexivity|].
+    split; [unfold arch_agree; cbn [pipe_init pst]; repeat split|reflexivity].
+  - pose proof (sim_c P HS n s _ (inv_init P s W HP Hex)) as H. unfold sim_goal in H.
+    assert (Hmu : mu (pipe_init s true) = 4) by reflexivity. rewrite Hmu in H.
+    destruct (single_run n s) as [s' [|f|]]; [| |exact Logic.I].
+    + destruct H as (c & p & Hc & Hrun & Hag & Htr). exists c, p. split; [lia|]. split; [exact Hrun|split; assumption].
+    + destruct H as (c & p & Hc & Hrun & Hag). exists c, p. split; [lia|]. split; assumption.
+Qed.
+Print Assumptions pipe_refines_single_noecall.
